@@ -160,6 +160,10 @@ func buildList(specs []cueSpec) *builtList {
 		if i%2 == 0 {
 			it.Style = b.style
 			it.InlineStyle = &astisub.StyleAttributes{WebVTTAlign: "left"}
+			if i%4 == 0 {
+				// the Effect column of an SSA event
+				it.InlineStyle.SSAEffect = "Scroll up;10;100;5"
+			}
 		}
 		if i%5 == 1 && len(it.Lines) > 0 && len(it.Lines[0].Items) > 0 {
 			// what the SSA reader leaves on a run: an override block (karaoke timing, here) is content like any other
